@@ -105,8 +105,8 @@ def conformance(v, exp, obs):
         for name in ("hdr", "raw", "udp", "scmp"):
             if name in obs and not same(obs[name], exp[name]):
                 out.append("%s: spec %s real %s" % (name, json.dumps({k: exp[name][k] for k in ("ok", "err", "size")}), json.dumps(obs[name])))
-        for name in ("payload", "udpd", "scmpm"):
-            if name in obs and obs[name] != exp[name]:
+        for name in ("payload", "udpd", "scmpm", "dport"):
+            if name in obs and name in exp and obs[name] != exp[name]:
                 out.append("%s extent: spec %s real %s" % (name, exp[name], obs[name]))
     elif "view" in obs and not same(obs["view"], exp["view"]):
         out.append("%s: spec %s real %s" % (v["k"], json.dumps(exp["view"]), json.dumps(obs["view"])))
@@ -259,7 +259,7 @@ def run(c):
                 if not p["key"].startswith("Conf:"):
                     c.violation(p["key"], "[%s build] %s [%s string #%d, %d bytes, seed %d]" % (prof, p["what"], e.get("src"), e["i"], e["d"]["len"], c.seed),
                                 {"seed": c.seed, "index": e["i"], "profile": prof, "bytes": e.get("bytes"), "env": env})
-        c.cov["distinct_nontrivial"] += sum(1 for e in events if e.get("src") in ("mutated", "shaped", "random"))
+        c.cov["distinct_nontrivial"] += sum(1 for e in events if e.get("src") in ("mutated", "quoting", "shaped", "random"))
     # binding self-check (DESIGN.md S6): synthetic observations, independent of the code under test:
     # faithful -> silent; size beyond the input -> UNSAFE; wrong extent -> NONCONF
     d0 = {"len": 44, "ver": 0, "hl": 9, "pl": 8, "pt": 0, "dn": 0, "sn": 0, "s0": 0, "s1": 0, "s2": 0, "ul": 8, "st": 128}
